@@ -1,9 +1,129 @@
 import KG.Base.Json
-/-! Driver entry points for property C02 (filled in by the C02 model). -/
+import KG.Model.Identity
+import KG.Spec.Identity
+/-! Driver entry points for property C02: `C02.run` runs the model of one request through the gateway, the
+    declarative expectation, and the judge on the model's output and (if given) on the implementation's output. -/
 namespace KG.Driver.C02
-open Lean
+open Lean KG KG.Model.Identity KG.Spec.Identity
+
+def decodeIdentityJson (j : Json) : Except String Identity := do
+  let name ← J.getHex j "name"
+  let groups ← J.getHexList j "groups"
+  let extra ← (← J.getArr j "extra").toList.mapM fun e => do
+    let k ← J.getHex e "k"
+    let v ← J.getHexList e "v"
+    pure (k, v)
+  pure ⟨name, groups, extra⟩
+
+def encodeIdentity (i : Identity) : Json :=
+  J.obj [("name", J.hex i.name), ("groups", J.hexList i.groups),
+         ("extra", Json.arr (i.extra.map fun e => J.obj [("k", J.hex e.1), ("v", J.hexList e.2)]).toArray)]
+
+def decodeLines (j : Json) (k : String) : Except String (List (Str × Str)) := do
+  (← J.getArr j k).toList.mapM fun e => do
+    let n ← J.getHex e "n"
+    let v ← J.getHex e "v"
+    pure (n, v)
+
+/-- header entries flattened to (name, value) pairs, in entry order -/
+def encodeHeaders (h : Headers) : Json :=
+  Json.arr (h.flatMap fun e => e.2.map fun v => J.obj [("n", J.hex e.1), ("v", J.hex v)]).toArray
+
+/-- the (resource, subresource, namespace, name) of the authorizer attributes of a derived request -/
+def reqKey : ImpReq → (String × Str × Str × Str)
+  | .sa ns name => ("serviceaccounts", [], ns, name)
+  | .user name => ("users", [], [], name)
+  | .group name => ("groups", [], [], name)
+  | .extra key value => ("userextras", key, [], value)
+
+def encodeReq (r : ImpReq) : Json :=
+  let (res, sub, ns, name) := reqKey r
+  J.obj [("res", Json.str res), ("sub", J.hex sub), ("ns", J.hex ns), ("name", J.hex name)]
+
+def decodeDecision : String → Except String Decision
+  | "allow" => pure .allow
+  | "deny" => pure .deny
+  | "noopinion" => pure .noOpinion
+  | "error" => pure .error
+  | s => throw s!"bad decision {s}"
+
+def decodeAz (j : Json) : Except String (ImpReq → Decision) := do
+  let rules ← (← J.getArr j "deny").toList.mapM fun e => do
+    let res ← J.getStr e "res"
+    let sub ← J.getHex e "sub"
+    let ns ← J.getHex e "ns"
+    let name ← J.getHex e "name"
+    let d ← decodeDecision (← J.getStr e "d")
+    pure ((res, sub, ns, name), d)
+  pure fun r => (rules.lookup (reqKey r)).getD .allow
+
+def outcomeName : Outcome → String
+  | .badRequest => "badRequest"
+  | .unauthorized => "unauthorized"
+  | .internalError => "internalError"
+  | .forbidden => "forbidden"
+  | .transportRefused => "transportRefused"
+  | .forwarded _ _ => "forwarded"
+
+def identityPart (h : Headers) : Headers := h.filter (fun e => isIdentityName e.1)
+
+def doRun (a : Json) : Except String Json := do
+  let token ← J.getHex a "token"
+  let raw ← decodeLines a "client"
+  let auth ← match J.optObj a "user" with
+    | none => pure none
+    | some j => do pure (some (← decodeIdentityJson j))
+  let az ← decodeAz a
+  let upgrade ← J.getBool a "upgrade"
+  let out := serve token raw auth az upgrade
+  let exp := expectedFor raw auth az
+  let modelUpstream : List Headers := match out with
+    | .forwarded recv _ => [identityPart recv]
+    | _ => []
+  let (recvJ, ctxJ) := match out with
+    | .forwarded recv u => (encodeHeaders (identityPart recv), encodeIdentity u)
+    | _ => (Json.arr #[], Json.null)
+  let calls : List ImpReq := match parse raw with
+    | none => []
+    | some h => (buildImpersonationRequests (authnStrip h)).getD []
+  let expJ := match exp with
+    | .answered s => J.obj [("kind", Json.str "answered"), ("status", J.nat s)]
+    | .forward id => J.obj [("kind", Json.str "forward"), ("id", encodeIdentity id),
+        ("keysLower", J.bool (extraKeysLower id)), ("trimmed", J.bool (valuesTrimmed id))]
+  let judgeImpl ← match J.optObj a "observed" with
+    | none => pure Json.null
+    | some o => do
+      let ups ← (← J.getArr o "upstream").toList.mapM fun u => do
+        let lines ← u.getArr?
+        lines.toList.mapM fun e => do
+          let n ← J.getHex e "n"
+          let v ← J.getHex e "v"
+          pure (n, [v])
+      pure (Json.arr ((judge token upgrade exp ups).map fun c => Json.str c.name).toArray)
+  pure <| J.obj [
+    ("outcome", Json.str (outcomeName out)),
+    ("recv", recvJ),
+    ("ctxUser", ctxJ),
+    ("calls", Json.arr (calls.map encodeReq).toArray),
+    ("expect", expJ),
+    ("impRequested", J.bool (impersonationRequested raw)),
+    ("judgeModel", Json.arr ((judge token upgrade exp modelUpstream).map fun c => Json.str c.name).toArray),
+    ("judgeImpl", judgeImpl)]
+
+/-- `C02.escape {key}`: `headerKeyEscape`, and what the upstream decodes from the canonicalised header name -/
+def doEscape (a : Json) : Except String Json := do
+  let k ← J.getHex a "key"
+  let e := headerKeyEscape k
+  let name := canonicalKey (hImpExtraPrefix ++ e)
+  pure <| J.obj [("escaped", J.hex e), ("header", J.hex name), ("valid", J.bool (validName name)),
+    ("decoded", J.hex (unescapeExtraKey (toLower (name.drop hImpExtraPrefix.length)))),
+    ("unescaped", match pathUnescape e with | some x => J.hex x | none => Json.null)]
 
 /-- `handle method args`: `none` when the method is unknown. -/
-def handle (_m : String) (_a : Json) : Option (Except String Json) := none
+def handle (m : String) (a : Json) : Option (Except String Json) :=
+  match m with
+  | "run" => some (doRun a)
+  | "escape" => some (doEscape a)
+  | _ => none
 
 end KG.Driver.C02
